@@ -395,7 +395,7 @@ def functions():
         f('upstring(%s)' % S, lambda s=s: s.upper())
         f('lowstring(%s)' % S, lambda s=s: s.lower())
         f('strlen(upstring(%s))' % S, lambda s=s: len(s))
-        for st in range(-2, 5):
+        for st in list(range(-2, 5)) + [2 ** 31, 2 ** 32, 2 ** 32 + 1, 2 ** 63 - 1, -2 ** 63]:      # (an index is a 64-bit integer like any other)
             f('charfromstr(%s,%s)' % (S, lit(st)), lambda s=s, st=st: ord(s[st]) if 0 <= st < len(s) else -1)
             for n in range(0, 5):
                 def sub(s=s, st=st, n=n):
@@ -422,6 +422,38 @@ def functions():
         f('%s+1' % src, lambda v=val: v + 1)
         f('(%s)*2' % src, lambda v=val: v * 2)
         f('1+%s' % src, lambda v=val: v + 1)
+    return out
+
+
+def userfunctions():
+    """arguments pass through a user-defined FUNCTION unchanged: integers over the 64-bit range, floats that need all 17 digits,
+    strings with every kind of character"""
+    out = []
+
+    def f(expr, val, tol=False):
+        it = item(expr, val=val, tol=tol)
+        if it:
+            out.append(it)
+    for v in (0, 1, -1, 255, 2 ** 31, 2 ** 32 + 5, 2 ** 63 - 1, -2 ** 63):
+        f('ident(%s)' % lit(v), lambda v=v: v)
+        f('sq(%s)' % lit(v), lambda v=v: wrap(v * v))
+        f('add3(%s,1,2)' % lit(v), lambda v=v: wrap(v + 3))
+        f('twice(%s)' % lit(v), lambda v=v: wrap(2 * v))
+    for e, v in (('0.1', 0.1), ('0.1+0.2', 0.1 + 0.2), ('1.1*1.1', 1.1 * 1.1), ('1.0/3.0', 1.0 / 3.0), ('2.0/3.0', 2.0 / 3.0), ('0.30000000000000004', 0.30000000000000004),
+                 ('1.0E300', 1e300), ('1.7976931348623157E308', 1.7976931348623157e308), ('2.2250738585072014E-308', 2.2250738585072014e-308),
+                 ('4.9E-324', 5e-324), ('123456789.12345679', 123456789.12345679), ('0.7+0.1', 0.7 + 0.1), ('1.0E22+1.0', 1e22 + 1.0)):
+        f('ident(%s)' % e, lambda v=v: v)
+        f('(ident(%s)=(%s))+4' % (e, e), lambda: 5)
+        f('twice(%s)' % e, lambda v=v: v + v)
+        f('add3(%s,0.0,0.0)' % e, lambda v=v: v + 0.0 + 0.0)
+    for src, val in (('abc', 'abc'), ('', ''), ('a b', 'a b'), ('a,b', 'a,b'), ('a\\"b', 'a"b'), ('a\\\\b', 'a\\b'), ('a\\228b', 'a\xe4b'), ('\\128\\255', '\x80\xff'), ('(x)', '(x)'),
+                     ("it's", "it's"), ('\\n', '\n'), ('\\t\\1', '\t\x01')):
+        S = '"%s"' % src
+        f('strlen(ident(%s))' % S, lambda v=val: len(v))
+        f('(ident(%s)==%s)+4' % (S, S), lambda: 5)
+        f('strlen(ident(%s)+ident(%s))' % (S, S), lambda v=val: 2 * len(v))
+        if val:
+            f('charfromstr(ident(%s),%d)' % (S, len(val) - 1), lambda v=val: ord(v[-1]))
     return out
 
 
@@ -522,7 +554,9 @@ def subspaces(tier):
     if not q:
         subs.append(('b:operator-triples', tb(triples())))
     subs.append(('c:functions', micro.batches(pre, [], functions(), 400)))
-    rads = [2, 8, 10, 16] if q else list(range(2, 37))
+    subs.append(('c:user-functions', micro.batches(pre + ['ident\tfunction x,x', 'sq\tfunction x,x*x', 'add3\tfunction a,b,c,a+b+c', 'twice\tfunction f,ident(f)+ident(f)'],
+                                                    [], userfunctions(), 400)))
+    rads = [2, 8, 10, 11, 12, 16, 17, 18, 24, 25, 26, 27, 33, 34, 36] if q else list(range(2, 37))      # (quick: the radixes at which a suffix or prefix letter becomes a digit)
 
     def lb():
         for p, its in literal_batches(rads):
